@@ -9,6 +9,7 @@ From PyLib Require Import PyVal PyBuiltins B64 B64Facts B64Verified Ideal.
 From Spec Require Import CalSpec CivilOfJdn.
 From Gen Require Import M_base M_Angle M_Epoch.
 From Proofs.C02 Require Import C02_defs C02_sym C02_symf C02_main C02_hms C02_arith.
+From Proofs.C02 Require C02_ctor_ideal.
 Import ListNotations.
 Open Scope Z_scope.
 
@@ -177,6 +178,43 @@ Qed.
 Theorem C02_ctor_within_attained : ctor_within (2451545.25 + 1.5)%float 2451546.75%float.
 Proof. exact ctor_within_witness. Qed.
 
+(* IDEAL instance, EVERY real JDE j with -0.5 <= j < 5399999.5 (day numbers 0 .. 5 399 999): the constructor
+   Epoch(j) and e.set(j) store exactly j -- the calendar round trip inside Epoch.set (get_full_date, then
+   _compute_jde) is exact over the reals.  Proof: symbolic evaluation of the regenerated get_date /
+   _compute_jde / set with an abstract day number (floors of the decimal rational functions = integer
+   divisions), the day fraction recombined by field arithmetic, and the integer decode/encode round trip
+   checked for every day number of the range by kernel computation (16 shards over Z). *)
+Theorem C02_ctor_exact_ideal : forall j : R, C02_ctor_ideal.jde_in_range j ->
+  Epoch___init__ Rops (VObj cEpoch [VNone]) (VTuple [VFloat j]) (VDict []) = VObj cEpoch [VFloat j] /\
+  (forall j0, Epoch_set Rops (VObj cEpoch [VFloat j0]) (VTuple [VFloat j]) (VDict [])
+              = VTuple [VObj cEpoch [VFloat j]; VNone]).
+Proof.
+  intros j H. split; [exact (C02_ctor_ideal.Epoch_ctor_exact_ideal j H)|].
+  intro j0. exact (C02_ctor_ideal.Epoch_set_exact_ideal j0 j H).
+Qed.
+
+(* ... hence, ideal instance, all reals in range: e + x, x + e, e += x hold exactly jde + x; e - x, e -= x
+   exactly jde - x; (e + x) - e = x and e - (e - x) = x EXACTLY *)
+Theorem C02_arith_exact_ideal : forall j x : R,
+  (C02_ctor_ideal.jde_in_range (j + x) ->
+     Epoch___add__ Rops (epg j) (VFloat x) = epg (j + x)%R /\
+     Epoch___radd__ Rops (epg j) (VFloat x) = epg (j + x)%R /\
+     Epoch___iadd__ Rops (epg j) (VFloat x) = epg (j + x)%R /\
+     Epoch___sub__ Rops (Epoch___add__ Rops (epg j) (VFloat x)) (epg j) = VFloat x) /\
+  (C02_ctor_ideal.jde_in_range (j - x) ->
+     Epoch___sub__ Rops (epg j) (VFloat x) = epg (j - x)%R /\
+     Epoch___isub__ Rops (epg j) (VFloat x) = epg (j - x)%R /\
+     Epoch___sub__ Rops (epg j) (Epoch___sub__ Rops (epg j) (VFloat x)) = VFloat x).
+Proof.
+  intros j x. split; intro H.
+  - destruct (C02_ctor_ideal.Epoch_add_ideal j x H) as (A & B & C).
+    split; [exact A|]. split; [exact B|]. split; [exact C|].
+    exact (proj1 (C02_ctor_ideal.Epoch_translation_ideal j x) H).
+  - destruct (C02_ctor_ideal.Epoch_sub_ideal j x H) as (A & B).
+    split; [exact A|]. split; [exact B|].
+    exact (proj2 (C02_ctor_ideal.Epoch_translation_ideal j x) H).
+Qed.
+
 (* (d) ideal instance, all reals: the operators order Epochs as their JDE values *)
 Theorem C02_order_ideal : forall a b : R,
   (Epoch___lt__ Rops (epg a) (epg b) = VBool true <-> (a < b)%R) /\
@@ -187,9 +225,8 @@ Theorem C02_order_ideal : forall a b : R,
   (Epoch___ne__ Rops (epg a) (epg b) = VBool true <-> ~ (Rabs (a - b) < 1 / 10000000000)%R).
 Proof. exact ideal_order. Qed.
 
-(* (c) ideal instance, all reals: the instance of C02_operators at Rops.  It does NOT give
-   (e + x) - e = x for reals: that would need Epoch(j) = j in real arithmetic (the calendar
-   algorithm for all reals), which is unproved *)
+(* (c) ideal instance, all reals: the instance of C02_operators at Rops (reduction to the constructor
+   call); the constructor itself is characterised in C02_ctor_exact_ideal / C02_arith_exact_ideal *)
 Theorem C02_arith_ideal : forall j j' x : R,
   Epoch___sub__ Rops (epg j) (epg j') = VFloat (j - j')%R /\
   Epoch___add__ Rops (epg j) (VFloat x) = mkEg Rops [VFloat (j + x)%R] /\
@@ -209,5 +246,7 @@ Redirect "C02_operators.assumptions" Print Assumptions C02_operators.
 Redirect "C02_arith_grid.assumptions" Print Assumptions C02_arith_grid.
 Redirect "C02_arith_every_float.assumptions" Print Assumptions C02_arith_every_float.
 Redirect "C02_ctor_within_attained.assumptions" Print Assumptions C02_ctor_within_attained.
+Redirect "C02_ctor_exact_ideal.assumptions" Print Assumptions C02_ctor_exact_ideal.
+Redirect "C02_arith_exact_ideal.assumptions" Print Assumptions C02_arith_exact_ideal.
 Redirect "C02_order_ideal.assumptions" Print Assumptions C02_order_ideal.
 Redirect "C02_arith_ideal.assumptions" Print Assumptions C02_arith_ideal.
